@@ -1,10 +1,11 @@
 (* C17 — Method dispatch: exact names, first-dot service split, reserved rpc.* names.
    This file only restates the property theorems; proofs are in disp/DispatchProofs.v and
    disp/DispatchMore.v (the latter also links the dispatch model to the server model,
-   srv/SrvModel.v, and models the request context). *)
+   srv/SrvModel.v, and models the request context) and disp/DispatchReach.v (the gate as an
+   invariant of the server model's transition system). *)
 From Coq Require Import List NArith Bool Sorting.Sorted Sorting.Permutation.
 From JV Require Import Bytes Sort Msg Dispatch DispatchProofs DispatchMore.
-From JV Require SrvModel.
+From JV Require SrvModel SrvLemmas DispatchReach.
 Import ListNotations.
 Local Open Scope N_scope.
 
@@ -183,6 +184,33 @@ Theorem c17_tasks_made_by_mk_task : forall s batch ms q,
   map (SrvModel.mk_task s (length (SrvModel.units s)) (map (fun m => fix_id (j_id m)) ms)) ms.
 Proof. exact dequeue_tasks. Qed.
 Print Assumptions c17_tasks_made_by_mk_task.
+
+(* ON THE TRANSITION SYSTEM.  In every reachable state of a server with configuration c (method
+   names cf_methods c, built-ins enabled iff cf_builtin c), every task whose context was attached
+   is exactly what the gate says for its method under THAT configuration - method-not-found when
+   the gate yields no target, otherwise no error and the built-in flag of the target - and every
+   other task failed a pre-check (it has an error; the assigner was never consulted). *)
+Theorem c17_reach_gated : forall c s k t,
+  SrvLemmas.reach c s -> nth_error (SrvModel.tasks s) k = Some t ->
+  (SrvModel.t_hasctx t = true ->
+     match server_assign (SrvLemmas.cf_builtin c) (methods_assigner (SrvLemmas.cf_methods c)) (SrvModel.t_method t) with
+     | None => SrvModel.t_pre t = Some SrvModel.err_not_found
+     | Some tg => SrvModel.t_pre t = None /\ SrvModel.t_builtin t = is_builtin tg
+     end) /\
+  (SrvModel.t_hasctx t = false -> SrvModel.t_pre t <> None /\ SrvModel.t_builtin t = false).
+Proof. exact DispatchReach.reach_gated. Qed.
+Print Assumptions c17_reach_gated.
+
+(* ... so a task that may run (only tasks without a recorded error ever start a handler: C02) is
+   either the built-in rpc.serverInfo - only while built-ins are enabled - or a method the
+   assigner has under its exact name, and never a reserved rpc.* name while built-ins are enabled *)
+Theorem c17_reach_runnable_assigned : forall c s k t,
+  SrvLemmas.reach c s -> nth_error (SrvModel.tasks s) k = Some t -> SrvModel.t_pre t = None ->
+  (SrvModel.t_builtin t = true /\ SrvLemmas.cf_builtin c = true /\ SrvModel.t_method t = rpc_server_info) \/
+  (SrvModel.t_builtin t = false /\ In (SrvModel.t_method t) (SrvLemmas.cf_methods c) /\
+   (SrvLemmas.cf_builtin c = true -> has_prefix rpc_prefix (SrvModel.t_method t) = false)).
+Proof. exact DispatchReach.reach_runnable_assigned. Qed.
+Print Assumptions c17_reach_runnable_assigned.
 
 (* ---- the context ---- *)
 
